@@ -856,6 +856,7 @@ fn corpus(p: Prop) -> Vec<(SCase, LenStyle)> {
         svc: None,
         term_via_builder: false,
         svc_unknown_weight: false,
+        app: Default::default(),
     };
     let mut v = vec![];
     match p {
@@ -954,6 +955,7 @@ pub fn stale_link_witness(turn_restriction: bool) -> SCase {
         svc: None,
         term_via_builder: false,
         svc_unknown_weight: false,
+        app: Default::default(),
     }
 }
 
@@ -1001,13 +1003,16 @@ pub fn run(ctx: &mut Ctx, p: Prop) -> &'static str {
             let style = opts.len_style;
             let mut c = gen_case(&mut rng, &opts);
             shape_for(p, &mut c, &mut rng);
+            shape_app(&mut c, &mut rng);
             (c, style)
         };
         if c.edge_oriented {
             c.reverse = false; // the application never runs an edge-oriented search in reverse
         }
-        // the one configuration the generator makes that the application must refuse
-        let expect_refusal = matches!(c.svc, Some((_, _, _, false))) && c.svc_unknown_weight;
+        // the configurations the generator makes that the application must refuse: an unknown weight
+        // name without ignore_unknown_weights, and weights that sum to zero
+        let zero_weights = c.weights.iter().map(|(_, w)| *w).sum::<f64>() == 0.0;
+        let expect_refusal = (matches!(c.svc, Some((_, _, _, false))) && c.svc_unknown_weight) || zero_weights;
         let b = match build(&c) {
             Ok(b) => {
                 if expect_refusal {
@@ -1028,6 +1033,33 @@ pub fn run(ctx: &mut Ctx, p: Prop) -> &'static str {
             }
         };
         let ex = exec(&c, &b);
+        if c.app.any() {
+            // the same case with every model constructed in code: the application's builders, files and
+            // services must give the same search (and the same maximum speed)
+            ctx.count("built_through_application_builders");
+            let mut c0 = c.clone();
+            c0.app = AppBuild::default();
+            match build(&c0) {
+                Ok(b0) => {
+                    let ex0 = exec(&c0, &b0);
+                    let (l, l0) = (outcome_line(&ex.outcome), outcome_line(&ex0.outcome));
+                    if l != l0 || ex.scheds != ex0.scheds {
+                        ctx.fail(idx, "build/application-builders-differ-from-direct", format!("through the builders: {} constructed in code: {}", short(&l), short(&l0)));
+                    }
+                    if b.max_speed.to_bits() != b0.max_speed.to_bits() {
+                        ctx.fail(idx, "speed_engine/max-speed-differs", format!("SpeedTraversalEngine::new found {} but get_max_speed on the same table {}", b.max_speed, b0.max_speed));
+                    }
+                }
+                Err(e) => ctx.fail(idx, "build/application-builders-differ-from-direct", format!("the in-code construction was refused: {}", e)),
+            }
+        }
+        if let Trav::Speed { table, .. } = &c.trav {
+            // premise of the A* time estimate: the engine's maximum is the largest table speed
+            let m = table.iter().cloned().fold(f64::NEG_INFINITY, f64::max);
+            if b.max_speed != m {
+                ctx.fail(idx, "speed_engine/max-speed-not-maximum", format!("max_speed {} but the largest table speed is {}", b.max_speed, m));
+            }
+        }
         let mut sched: Vec<usize> = ex.scheds.first().cloned().unwrap_or_default();
         // the hook records the vertices that were expanded; a successful search with a destination
         // ends by popping the destination, which is not expanded
@@ -1101,13 +1133,53 @@ pub fn run(ctx: &mut Ctx, p: Prop) -> &'static str {
         Prop::C10 => crate::c13::run_prop_stream(ctx, crate::c13::Stream::C10),
         _ => {}
     }
+    // the application's builders, services and query parsers called directly, with well-formed and
+    // malformed inputs (harness/src/appbuild.rs); case lines start with `bld`
+    crate::appbuild::run_stream(ctx, p);
     match p {
-        Prop::C01 => "random digraphs (rings, grids, two components, dense with parallel edges and self loops), tie-heavy / generic / metric lengths, Dijkstra and A* with weight factors 0..10, forward and reverse, vertex and edge orientation, with the full model stack, followed by a k-shortest-paths stream (single-via vertex- and edge-oriented, Yen where it returns: every single-via route and the first Yen route judged by the same walk oracle; lollipop and edge-oriented multi-route shapes first); non-trivial = successful search with a route of >= 2 edges or a tree of >= 3 entries (KSP: at least two routes), distinct by full output",
-        Prop::C02 => "state-independent non-negative costs (distance / speed models, raw / factor / combined rates, per-edge surcharges), no access model, edge-local restrictions, half of the cases metrically consistent; Bellman-Ford oracle; non-trivial as C01",
-        Prop::C03 => "all unit configurations of distance / speed models and turn-delay access models; per-edge re-accumulation with the real unit functions, also along every alternative of a k-shortest-paths stream (turn delays, junction of the two halves included); non-trivial as C01",
-        Prop::C04 => "road-class, vehicle-restriction (mixed units, values straddling limits), turn-restriction and edge-cut models and their combinations, also on every alternative of a k-shortest-paths stream; non-trivial as C01",
+        Prop::C01 => "random digraphs (rings, grids, two components, dense with parallel edges and self loops), tie-heavy / generic / metric lengths, Dijkstra and A* with weight factors 0..10, forward and reverse, vertex and edge orientation, with the full model stack, followed by a k-shortest-paths stream (single-via vertex- and edge-oriented, Yen where it returns: every single-via route and the first Yen route judged by the same walk oracle; lollipop and edge-oriented multi-route shapes first); non-trivial = successful search with a route of >= 2 edges or a tree of >= 3 entries (KSP: at least two routes), distinct by full output; half of the generated cases build their traversal / access / frontier models through the application's builders, files and services (compared with the in-code construction); then direct calls of a_star_algorithm::run_a_star_edge_oriented + backtrack::edge_oriented_route and of the k-shortest-path algorithms without destination (`bld` stream)",
+        Prop::C02 => "state-independent non-negative costs (distance / speed models, raw / factor / combined rates, per-edge surcharges), no access model, edge-local restrictions, half of the cases metrically consistent; Bellman-Ford oracle; non-trivial as C01; then a `bld` stream: SpeedLookupBuilder / SpeedTraversalEngine::new on speed table files (positive, zero, negative, NaN, inf, junk rows, no rows, missing file, default units, malformed configuration), DistanceTraversalBuilder, the weight_factor query field",
+        Prop::C03 => "all unit configurations of distance / speed models and turn-delay access models; per-edge re-accumulation with the real unit functions, also along every alternative of a k-shortest-paths stream (turn delays, junction of the two halves included); non-trivial as C01; then a `bld` stream: speed table files and TurnDelayAccessModelBuilder on edge-headings files (swapped / wrong header, short records, cells that are no i16, empty departure) with delay-table configurations (missing classes, unknown names, ill-typed values, custom time feature)",
+        Prop::C04 => "road-class, vehicle-restriction (mixed units, values straddling limits), turn-restriction and edge-cut models and their combinations, also on every alternative of a k-shortest-paths stream; non-trivial as C01; then a `bld` stream: VehicleParameters::from_query (every field missing / ill-typed / wrong unit family, axle counts up to 2^32), RoadClassBuilder with class files, parser mappings and road_classes fields (numbers, names, mixed, unknown, out of range), TurnRestrictionBuilder, VehicleRestrictionBuilder (bad names, units, values) and CombinedBuilder",
         Prop::C05 => "disconnected and restricted graphs, with and without destination; BFS oracle over permitted edges; non-trivial as C01",
-        Prop::C10 => "iteration / solution-size / runtime limits (virtual clock) and combinations from zero to beyond need, followed by a k-shortest-paths stream (single-via and returning Yen runs: each underlying search within its limits, result identical to the unlimited query or the explicit terminated error); non-trivial = successful non-trivial search or explicit termination",
+        Prop::C10 => "iteration / solution-size / runtime limits (virtual clock) and combinations from zero to beyond need, followed by a k-shortest-paths stream (single-via and returning Yen runs: each underlying search within its limits, result identical to the unlimited query or the explicit terminated error); non-trivial = successful non-trivial search or explicit termination; then a `bld` stream: TerminationModelBuilder on nested sections with one planted defect (missing / ill-typed fields, malformed durations, unknown types), negative counts, frequency 0, durations beyond u64",
+    }
+}
+
+/// half of the generated cases build their models the way the application does (builders, files,
+/// services); one case in forty has weights that sum to zero (refused); one turn-delay case in ten has a
+/// heading outside [0, 360) (`Turn::from_angle` must answer with an error, not a delay)
+fn shape_app(c: &mut SCase, rng: &mut Rng) {
+    if rng.chance(1, 2) {
+        c.app = AppBuild {
+            trav: rng.chance(2, 3),
+            access: rng.chance(2, 3),
+            frontier: rng.chance(2, 3),
+            omit_default_units: rng.chance(1, 2),
+            gzip: rng.chance(1, 4),
+        };
+    }
+    if rng.chance(1, 40) {
+        for w in c.weights.iter_mut() {
+            w.1 = 0.0;
+        }
+    }
+    if let Acc::Turn { headings, .. } = &mut c.access {
+        if rng.chance(1, 10) && !headings.is_empty() {
+            let k = rng.below(headings.len());
+            headings[k].0 = *rng.pick(&[360i16, 400, 539, 541, 720, -1, -90, -181, -400]);
+            if rng.chance(1, 2) {
+                headings[k].1 = Some(*rng.pick(&[360i16, 545, 700, -5, -200]));
+            }
+        }
+    }
+}
+
+fn first_clock_of(t: &Term) -> Option<(u64, u64)> {
+    match t {
+        Term::Runtime { base_ns, per_ns, .. } => Some((*base_ns, *per_ns)),
+        Term::Combined(ms) => ms.iter().filter_map(first_clock_of).next(),
+        _ => None,
     }
 }
 
@@ -1180,6 +1252,20 @@ fn shape_for(p: Prop, c: &mut SCase, rng: &mut Rng) {
                     1 => Term::Size(rng.below(n_v + 2)),
                     _ => Term::Runtime { limit_ns: 1000 * (1 + rng.below(10)) as u64, freq: 1 + rng.below(4) as u64, base_ns: rng.below(3000) as u64, per_ns: (rng.below(4) * 700) as u64 },
                 };
+            }
+            if rng.chance(1, 5) {
+                // nested sections: an empty combined model never fires, an inner combined model fires or
+                // stays silent as a whole
+                let t = std::mem::replace(&mut c.term, Term::Combined(vec![]));
+                let n_v = c.coords.len();
+                c.term = match rng.below(3) {
+                    0 => Term::Combined(vec![Term::Combined(vec![]), t]),
+                    1 => Term::Combined(vec![Term::Combined(vec![Term::Iters(rng.below(2 * n_v + 3) as u64), Term::Size(n_v + 5)]), t]),
+                    _ => Term::Combined(vec![t, Term::Combined(vec![Term::Combined(vec![Term::Size(rng.below(n_v + 2))])])]),
+                };
+                if let Some(cl) = first_clock_of(&c.term) {
+                    normalise_clock(&mut c.term, cl);
+                }
             }
             if rng.chance(1, 3) {
                 // through the application's builder: runtime limits in whole seconds, clock in seconds
